@@ -120,7 +120,10 @@ def constant_fold_binary_int_op(op: str, left: int, right: int) -> int | float |
         return left * right
     elif op == "/":
         if right != 0:
-            return left / right
+            try:
+                return left / right
+            except OverflowError:
+                return None
     elif op == "//":
         if right != 0:
             return left // right
